@@ -1,7 +1,7 @@
 """C19 — transaction groups apply atomically.
 Tie C: shared LedgerCore harness, profile c19 (60% multi-member groups, the failing member and the failure kind vary), vs
 Model.LedgerCore; monitor on the implementation's outputs alone: after a failing TransactionGroup the full dump of the
-evaluator-visible state (all accounts, asset params/holdings/creators, fees collected, txn counter) and the payset length equal
+evaluator-visible state (all accounts, asset params/holdings/creators, fees collected, txn counter, block space charged = blockTxBytes) and the payset length equal
 those before it; after a successful one the payset and the txn counter grow by exactly the group's size."""
 import common, lcore
 
@@ -51,6 +51,9 @@ def monitor(case):
             if st["prev"] is not None and out != st["prev"].raw:
                 a, b = lcore.first_diff(st["prev"].raw, out)
                 return idx, "the state read twice without a group in between differs: %s vs %s" % (a, b)
+        elif kind == "endblock":
+            if not out.startswith("end "):
+                return idx, "a block built only from accepted groups is rejected by the real GenerateBlock / Validate (a rejected group left a trace, e.g. in the header Load): " + out[:160]
         elif kind == "garbled":
             return idx, "unparseable harness output " + out[:120]
     return None
@@ -61,7 +64,7 @@ def run(ctx, replay_ops=None):
               rule=("cases as in C18; profile c19 = 60% groups of 2..17 members; in 70% of them one position (uniform) holds a generated, often failing transaction (overspend, below min balance, "
                     "frozen / not opted-in / unknown asset, dead window, malformed, duplicate of a committed or of a sibling transaction) while the other members are valid payments, so partial effects "
                     "exist before the failure; group-id defects (zero id in a multi-member group, inconsistent ids, wrong hash), fee shortfall with pooling, oversized groups; failing and succeeding groups "
-                    "alternate on the same evaluator (recycled child cows); a directed 'written earlier in this block, then written again by a group that FAILS' stream (18% of groups + forced after an asset created in the block): random orders of {asset reconfigure by the manager, transfer / freeze / clawback rewriting the creator's holding, payments and keyregs of accounts touched earlier} x {overspending or dead member at any position, wrong group hash, fee shortfall, none} x {asset created earlier in this block, holding touched earlier in this block, untouched} — parent/child record aliasing shows only there; evaluations = groups tried; distinct = distinct non-empty group op lines"),
+                    "alternate on the same evaluator (recycled child cows); a block-space stream (40% of c19 cases, 8% elsewhere): the evaluator is started with MaxTxnBytesPerBlock ∈ {700, 1500, 3000}; blocks fill up and groups are rejected with ErrNoSpace at arbitrary member positions; when < 900 bytes remain, groups of payments sized byte-exactly (note padding) to the remaining space + 1 (ErrNoSpace at the last member / at member k of a longer group), − 1 and exactly (accepted, block full), then one more; the bytes charged (blockTxBytes) are part of every dump and the header Load + Ledger.Validate of the generated block are checked at the end of every block; a directed 'written earlier in this block, then written again by a group that FAILS' stream (18% of groups + forced after an asset created in the block): random orders of {asset reconfigure by the manager, transfer / freeze / clawback rewriting the creator's holding, payments and keyregs of accounts touched earlier} x {overspending or dead member at any position, wrong group hash, fee shortfall, none} x {asset created earlier in this block, holding touched earlier in this block, untouched} — parent/child record aliasing shows only there; evaluations = groups tried; distinct = distinct non-empty group op lines"),
               replay_ops=replay_ops,
               extra_assumptions=["the corruptedState guard (a panic recovered in the middle of commitToParent) is not modelled: commitToParent of the model is total",
                                  "aliasing of Go maps / pooled child cows is visible to the tie and the monitor only"])
